@@ -453,6 +453,34 @@ ACC_MEMBERS = [(r'^bins\|nano::wlearner::accumulator_t', '{self}->bins'),
                (r'^begin\|std::vector<' + ACC_PAIR, '((uint64_t)0)'), (r'^end\|std::vector<' + ACC_PAIR, '{self}->n')]
 
 
+TBLC_TYPES = [(r'^std::vector<' + ACC_PAIR, 'struct nv_mapv'),
+              (r'^nano::hashes_t$|^nano::tensor_t<nano::tensor_vector_storage_t, unsigned long, 1>$', 'struct nv_h1'),
+              (r'^nano::indices_t$|^nano::tensor_t<nano::tensor_vector_storage_t, long, 1>$', 'struct nv_i1'),
+              (r'^nano::tensor4d_t$|^nano::tensor_t<nano::tensor_vector_storage_t, double, 4>$', 'struct nv_tabg'),
+              (r'^nano::tensor3d_dims_t$|^nano::tensor_dims_t<3>$|^std::array<long, 3', 'int64_t'),       # target dims: their product, the number of outputs
+              (r'^nano::tensor4d_dims_t$|^nano::tensor_dims_t<4>$|^std::array<long, 4', 'struct nv_dims2'),
+              (r'^nano::wlearner_criterion$', 'int32_t'), (r'^' + ACC_PAIR + r'$|' + ACC_PAIR + r'.*value_type$', 'struct nv_gpair')]
+TBLC_CALLS = [(r'^make_score\|', 'nv_make_score({0}, {1}, {2}, {3})'), (r'^size\|.*tensor_dims_t<3', '{0}'), (r'^cat_dims\|', 'nv_cat({0}, {1})'),
+              (r'^arange\|', 'nv_arange({0}, {1})'),
+              (r'^operator\[\]\|.*\|std::vector<' + ACC_PAIR, '(*nv_mapv_at({&0}, {1}))'),
+              (r'^operator\(\)\|.*\|nano::tensor_t<nano::tensor_vector_storage_t, unsigned long, 1>', '(*nv_h1_at({&0}, {1}))'),
+              (r'^operator\(\)\|.*\|nano::tensor_t<nano::tensor_vector_storage_t, long, 1>', '(*nv_i1_at({&0}, {1}))'),
+              (r'^operator=\|.*\|nano::tensor_t<nano::tensor_vector_storage_t, unsigned long, 1>', 'nv_h1_assign({&0}, {&1})'),
+              (r'^operator=\|.*\|nano::tensor_t<nano::tensor_vector_storage_t, long, 1>', 'nv_i1_assign({&0}, {1})')]
+TBLC_MEMBERS = [(r'^tdims\|nano::wlearner::accumulator_t', '{self}->outs'), (r'^sort\|nano::wlearner::accumulator_t', 'nv_sorted({self})'),
+                (r'^score\|nano::table_wlearner_t::cache_t', 'tbl_score'),
+                (r'^resize\|nano::tensor_(t<nano::tensor_vector_storage_t, unsigned long, 1>|vector_storage_t<unsigned long, 1>)', 'nv_h1_resize({self}, {0})'),
+                (r'^resize\|nano::tensor_(t<nano::tensor_vector_storage_t, long, 1>|vector_storage_t<long, 1>)', 'nv_i1_resize({self}, {0})'),
+                (r'^resize\|nano::tensor_(t<nano::tensor_vector_storage_t, double, 4>|vector_storage_t<double, 4>)', 'nv_tab_resize({self}, {0})'),
+                (r'^array\|nano::tensor_t<nano::tensor_vector_storage_t, double, 4>', 'nv_tab_array({self}, {0})')]
+
+
+def tblc_fn(cname, name, **kw):
+    cw = eigencw.hook('struct nv_av', scalars=True)
+    return Fn(cname, TABLE_CPP, name, flt=f'cache_t::{name}', self_struct='struct nv_accum', types=TBLC_TYPES + ACC_TYPES, calls=TBLC_CALLS + ACC_CALLS,
+              members=TBLC_MEMBERS + ACC_MEMBERS, stmt_hooks=[cw], hooks=[cw.reduce_hook(), cw.value_hook('struct nv_ev')], **kw)
+
+
 def acc_fn(cname, tu, name, flt, **kw):
     cw = eigencw.hook('struct nv_av', scalars=True)
     return Fn(cname, tu, name, flt=flt, self_struct='struct nv_accum', types=ACC_TYPES, calls=ACC_CALLS, members=ACC_MEMBERS,
@@ -637,6 +665,8 @@ def build(tier):
     for cls in ('stump', 'hinge', 'affine'):
         targets.append(Target(f'{cls}_do_fit', [fit_top_fn(cls)], 'specs/C10/fit_top.h'))
     AH = 'specs/C10/accum.h'
+    targets.append(Target('tbl_score_dense', [tblc_fn('tbl_score_dense', 'score_dense'), acc_fn('tbl_score', TABLE_CPP, 'score', 'cache_t::score', ret='double')], AH))
+    targets.append(Target('tbl_score_kbest', [tblc_fn('tbl_score_kbest', 'score_kbest')], AH))
     # (deduced `auto` return types: the C return type is given here; the returned expression itself is extracted)
     targets.append(Target('acc_sort', [acc_fn('acc_sort', ACC_CPP, 'sort', 'accumulator_t::sort', ret='struct nv_dvec')], AH))
     targets.append(Target('tbl_score', [acc_fn('tbl_score', TABLE_CPP, 'score', 'cache_t::score', ret='double')], AH))
